@@ -867,6 +867,9 @@ class Gen:
 def gen_input(rng, focus='all'):
     g = Gen(rng, focus)
     prog = g.program()
+    if prog[2] and isinstance(prog[4][3], list) and prog[4][3][0] == 'raise1' and rng.random() < 0.35:
+        # under the @expectedFailure decorator: more often an exception that is not an Exception (the wrapper must let it through)
+        prog[4][3][1][0] = rng.choice(['ki', 'sysexit', 'base'])
     runs = rng.choice([1, 1, 2, 2, 3])
     hints = []
     if rng.random() < 0.15:
